@@ -333,23 +333,7 @@ func checkC05(c *Ctx, r *Report) {
 			continue // error return
 		}
 		sorted++
-		okS := false
-		forEachInstr(prep, func(in ssa.Instruction) {
-			call, ok := in.(*ssa.Call)
-			if !ok {
-				return
-			}
-			if !(calleeIs(call, "sort", "", "Sort") || calleeIs(call, "sort", "", "Stable") || calleeIs(call, "slices", "", "SortFunc") || calleeIs(call, "slices", "", "SortStableFunc")) {
-				return
-			}
-			arg := call.Call.Args[0]
-			if mi, ok := arg.(*ssa.MakeInterface); ok {
-				arg = mi.X
-			}
-			if sameValue(arg, res[0]) && instrDominates(call, ret) {
-				okS = true
-			}
-		})
+		okS := sortedAtReturn(prep, res[0], ret, 2)
 		r.Check(okS, "O5-sort", "files.PrepareForPackager success return", c.instrPos(ret),
 			"the returned plan must be sorted (sort.Sort/Stable or slices.SortFunc on the returned slice) on every path to a success return")
 	}
@@ -1211,4 +1195,62 @@ func startsNormalised(c *Ctx, v ssa.Value, seen map[ssa.Value]bool, d int) (bool
 		return false, "a raw field read " + shorten(valueExpr(c, v, 0), 60)
 	}
 	return false, "unrecognised definition " + shorten(valueExpr(c, v, 0), 60)
+}
+
+// sortedAtReturn: the value returned at ret is sorted - a sort call on that very
+// slice dominates the return, or the value is the result of a helper every one
+// of whose returns hands back a slice sorted in the same sense.
+func sortedAtReturn(fn *ssa.Function, v ssa.Value, ret *ssa.Return, depth int) bool {
+	ok := false
+	forEachInstr(fn, func(in ssa.Instruction) {
+		call, isCall := in.(*ssa.Call)
+		if !isCall {
+			return
+		}
+		if !(calleeIs(call, "sort", "", "Sort") || calleeIs(call, "sort", "", "Stable") || calleeIs(call, "slices", "", "SortFunc") || calleeIs(call, "slices", "", "SortStableFunc")) {
+			return
+		}
+		arg := call.Call.Args[0]
+		if mi, isMI := arg.(*ssa.MakeInterface); isMI {
+			arg = mi.X
+		}
+		if sameValue(arg, v) && instrDominates(call, ret) {
+			ok = true
+		}
+	})
+	if ok || depth == 0 {
+		return ok
+	}
+	idx := 0
+	if ex, isEx := v.(*ssa.Extract); isEx {
+		idx = ex.Index
+		v = ex.Tuple
+	}
+	call, isCall := v.(*ssa.Call)
+	if !isCall {
+		return false
+	}
+	sc := call.Call.StaticCallee()
+	if sc == nil || len(sc.Blocks) == 0 {
+		return false
+	}
+	rets := 0
+	for _, b := range sc.Blocks {
+		r2, isRet := b.Instrs[len(b.Instrs)-1].(*ssa.Return)
+		if !isRet {
+			continue
+		}
+		res := retResults(r2)
+		if idx >= len(res) {
+			return false
+		}
+		if k, isK := res[idx].(*ssa.Const); isK && k.IsNil() {
+			continue
+		}
+		rets++
+		if !sortedAtReturn(sc, res[idx], r2, depth-1) {
+			return false
+		}
+	}
+	return rets > 0
 }
